@@ -14,7 +14,9 @@ Decided (necessary conditions, visible in the shape of the code):
       transaction with a row lock or one keyed-lock region; `released` (ownership) is returned to
       exactly the caller whose UPDATE ran;
   R5  one control loop per run: reload re-checks the active set under the reload lock; the basic
-      runtime refuses an existing run id; the DBOS resume awaits the old workflow before restart.
+      runtime refuses an existing run id; the DBOS resume awaits the old workflow before restart;
+  R6  (conditional) if the reducer can reject TickIdleRelease, the DBOS releaser has a `releasing` ->
+      `active` compensation, otherwise the lifecycle row sticks and later senders hang.
 
 Not decided: DBOS / Postgres / SQLite semantics (trusted), multi-replica timing, scheduled work held
 only in the runner's timer heap (decided by C03.R2 / C14.R1), the short overlap between a cancelled
@@ -64,6 +66,8 @@ EXPLANATION = (
     "R5: workflow.run in the reload path is dominated by `run_id not in _active_run_ids`, its callers hold the reload lock, "
     "BasicRuntime.run_workflow raises for a known run id before creating the task, _do_resume awaits the old workflow's result and "
     "is entered only by the owner of the `released` transition, restarting with the same run id. "
+    "R6 (conditional on R1's guard being present): when some path of the TickIdleRelease branch returns without the exit command, a "
+    "RunLifecycleLock transition `releasing`→`active` other than the crash-timeout takeover must exist and be called from the DBOS idle-release module. "
     "Not decided: database/DBOS semantics, cross-replica timing, timers in the runner's heap (C03/C14), delivery liveness."
 )
 TRUSTED = [
@@ -982,12 +986,71 @@ def rule_r5(chk) -> None:
                reason="_do_resume is not dominated by `result == RunLifecycleState.released`")
 
 
+def rule_r6(chk) -> None:
+    """Conditional companion of R1: once the reducer may *reject* TickIdleRelease (a path of the branch without the exit
+    command), the DBOS releaser — which has already moved the row to `releasing` and waits for the run's result — needs a
+    way back to `active`; otherwise the row stays `releasing`, later releases fail their CAS, and senders poll, force-claim
+    after the crash timeout and then wait for a workflow that is alive."""
+    repo = chk.repo
+    m, rt = repo.func(f"{CL}:_reduce_tick")
+    cfg = CFG(rt)
+    branch_tests = [n for n in cfg.nodes if n.kind == "test" and "TickIdleRelease" in ast.unparse(n.ast.test) and "isinstance" in ast.unparse(n.ast.test)]
+    if not branch_tests:
+        raise AnchorError("C26.R6: _reduce_tick has no isinstance(tick, TickIdleRelease) branch")
+    exits = [n for n in cfg.nodes if n.ast is not None and n.kind == "stmt" and any(isinstance(c, ast.Call) and last(call_name(c)) in ("IdleReleasedEvent",) for c in ast.walk(n.ast))]
+    helper_calls = []
+    if not exits:
+        # helper one call deep: the branch calls a function that builds the exit command
+        for n in cfg.nodes:
+            if n.ast is not None and n.kind == "stmt":
+                for c in ast.walk(n.ast):
+                    if isinstance(c, ast.Call) and isinstance(c.func, ast.Name) and c.func.id in m.functions and any(
+                            isinstance(x, ast.Call) and last(call_name(x)) == "IdleReleasedEvent" for x in ast.walk(m.functions[c.func.id])):
+                        helper_calls.append((n, m.functions[c.func.id]))
+    rejects = False
+    for t in branch_tests:
+        starts = [d for lab, d in cfg.succ[t] if lab == "T"]
+        r = cfg.reach(starts, blocked=exits + [n for n, _f in helper_calls], labels_excluded=("exc", "cancel"))
+        if cfg.exit in r:
+            rejects = True
+    for _n, hf in helper_calls:
+        hcfg = CFG(hf)
+        hex_ = [n for n in hcfg.nodes if n.ast is not None and n.kind == "stmt" and any(isinstance(c, ast.Call) and last(call_name(c)) == "IdleReleasedEvent" for c in ast.walk(n.ast))]
+        if hcfg.exit in hcfg.reach([hcfg.entry], blocked=hex_, labels_excluded=("exc", "cancel")):
+            rejects = True
+    if not rejects:
+        chk.ob("C26.R6", "the reducer never rejects TickIdleRelease, so a begun release always completes (nothing to compensate)", True, m=m, node=branch_tests[0].ast, fn=rt,
+               instance="rejected-release-compensated")
+        return
+    _m0, base, impls, ename, members = lifecycle_impls(repo)
+    reverts = set()
+    for _ref, mm, cls in impls:
+        for n in cls.body:
+            if isinstance(n, FuncNode) and n.name not in ("try_begin_resume", "create", "__init__"):
+                for sq in sql_statements(n):
+                    if sq.verb == "UPDATE":
+                        sets, where = sq.assignments()
+                        if state_member(sets.get("state"), ename, members, sq.call) == "active" and state_member(where.get("state"), ename, members, sq.call) == "releasing":
+                            reverts.add(n.name)
+    md, deco = repo.cls(f"{DBI}:DBOSIdleReleaseDecorator")
+    called = {c.func.attr for c in ast.walk(md.tree) if isinstance(c, ast.Call) and isinstance(c.func, ast.Attribute) and c.func.attr in reverts}
+    rel = need_method(md, deco, "_release_idle_handler")
+    chk.ob("C26.R6", "a release that the reducer rejects is compensated (lifecycle row moved back from `releasing` to `active`)", bool(called), m=md, node=rel, fn=rel,
+           instance="rejected-release-compensated",
+           reason=("the TickIdleRelease branch can now return without the exit command, but " +
+                   (f"the revert transition(s) {sorted(reverts)} are never called from {DBI}" if reverts else "no RunLifecycleLock method moves a row from `releasing` back to `active`") +
+                   ": after a rejected release the row stays `releasing` (later begin_release CAS fails; senders poll, force-claim after the crash timeout and _do_resume then awaits a workflow that is alive)"),
+           path=["begin_release: active -> releasing", "send TickIdleRelease -> reducer: not idle -> ignored", "_await_and_mark_released blocked in external.get_result()",
+                 "sender: try_begin_resume -> releasing … (crash timeout) -> forced `released` -> _do_resume awaits the live workflow"] if not called else None)
+
+
 def run(chk) -> None:
     rule_r1(chk)
     rule_r3(chk)
     rule_r4(chk)
     rule_r2(chk)
     rule_r5(chk)
+    rule_r6(chk)
     _fixture(chk)
 
 
@@ -1031,9 +1094,12 @@ _R1_INV = "        if _check_idle_state(init):\n            return init, []\n   
 
 TWINS = [
     # ---- R1 (the pinned tree has the unguarded form; the guarded forms are the repaired tree)
-    Twin("R1 benign: early-return guard", _CL, _R1_OLD, _R1_GUARD_A, None),
-    Twin("R1 benign: nested-if guard", _CL, _R1_OLD, _R1_GUARD_B, None),
-    Twin("R1 benign: extracted local, stronger predicate", _CL, _R1_OLD, _R1_GUARD_C, None),
+    # the guard forms below discharge R1 (verified in the module's own checks) but, alone, create the stuck-`releasing` hazard that R6 reports
+    Twin("R6 guard added without compensation (early-return form)", _CL, _R1_OLD, _R1_GUARD_A, "C26.R6"),
+    Twin("R6 guard added without compensation (nested-if form)", _CL, _R1_OLD, _R1_GUARD_B, "C26.R6"),
+    Twin("R6 guard added without compensation (extracted local)", _CL, _R1_OLD, _R1_GUARD_C, "C26.R6"),
+    Twin("R6 benign: branch reordered, still unconditional", _CL, "        # Return early — idle release does not schedule idle checks\n        return init, [CommandCompleteRun(result=IdleReleasedEvent())]\n",
+         "        release = CommandCompleteRun(result=IdleReleasedEvent())\n        return init, [release]\n", None),
     Twin("R1 guard removed again (repaired tree, early-return form)", _CL, _R1_GUARD_A, _R1_OLD, "C26.R1"),
     Twin("R1 guard inverted (repaired tree, nested-if form)", _CL, _R1_GUARD_B, _R1_INV, "C26.R1"),
     Twin("R1 predicate ignores running work", _CL, "        if worker_state.queue or worker_state.in_progress:\n            return False", "        if worker_state.queue:\n            return False", "C26.R1"),
@@ -1088,7 +1154,9 @@ TWINS = [
     Twin("R5 resume for any non-active state", _DBI, "            if result == RunLifecycleState.released:\n", "            if result != RunLifecycleState.active:\n", "C26.R5"),
     Twin("R5 benign: reversed comparison", _DBI, "            if result == RunLifecycleState.released:\n", "            if RunLifecycleState.released == result:\n", None),
     Twin("R5 benign: positive-form re-check", _SRV, "    async def _ensure_active_run_locked(self, run_id: str) -> None:\n        if run_id in self._active_run_ids:\n            return\n", "    async def _ensure_active_run_locked(self, run_id: str) -> None:\n        already = run_id in self._active_run_ids\n        if already:\n            return\n", None),
-    # ---- R2
+    # ---- R2 (the pinned tree violates R2; the pair below becomes active on the repaired tree proposed in the report)
+    Twin("R2 (repaired tree) hook no longer clears the marker", _SRV, "            await self._store.update_handler_status(self.run_id, idle_since=None)\n\n\nclass IdleReleaseExternalRunAdapter", "            pass\n\n\nclass IdleReleaseExternalRunAdapter", "C26.R2"),
+    Twin("R2 (repaired tree) hook renamed so that the runner never calls it", _SRV, "    async def on_tick(self, tick: WorkflowTick) -> None:\n        await super().on_tick(tick)\n        if self._marked_idle:", "    async def on_any_tick(self, tick: WorkflowTick) -> None:\n        if self._marked_idle:", "C26.R2"),
     Twin("R2 benign (repair): per-tick hook clears the marker", _SRV, "        if isinstance(event, WorkflowIdleEvent):\n            self._runtime._spawn_task(self._runtime._deferred_release(self.run_id))\n",
          "        if isinstance(event, WorkflowIdleEvent):\n            self._runtime._spawn_task(self._runtime._deferred_release(self.run_id))\n\n    @override\n    async def on_tick(self, tick: WorkflowTick) -> None:\n        await super().on_tick(tick)\n        await self._store.update_handler_status(self.run_id, idle_since=None)\n", None),
 ]
